@@ -179,7 +179,7 @@ def oracle(c, out):
                 bad(f"exchange: after the fault at callback #{op['fault']} the temporary credential is gone and no token credential was stored",
                     kind="consumed-before-stored", op=op["op"])
     # scenario histories: the grant is not lost — the fault-free repetition gives what the fault-free request gives
-    if c.get("scenario") and len(outs) == len(ops):
+    if c.get("scenario") and len(outs) == len(ops) and len(ops) >= len(c["k"]) + 2:
         nf = len(c["k"])
         first_retry = outs[len(ops) - 2]
         if all(outs[len(ops) - 3 - j].get("fault") for j in range(nf)) and first_retry.get("status") != c["expect_retry"]:
